@@ -255,3 +255,19 @@ def mk_emissions_funding(which):
 _t19e = tasks
 def tasks(tier):
     return _t19e(tier) + [('funding_setup', mk_emissions_funding('setup')), ('funding_update', mk_emissions_funding('update'))]
+
+
+
+# ---------------------------------------------------------------- shared with C08.g: the program entry points forward each argument to the handler parameter of the same name
+def t_entry_wiring_shared(world):
+    import specs.C08 as C08
+    obs = C08.t_entry_wiring(world)
+    for o in obs:
+        o.oid = 'C19.f'
+        for c in o.cex: c['ob'] = 'C19.f'
+    return obs
+
+
+_t_ews = tasks
+def tasks(tier):
+    return _t_ews(tier) + [('entry_wiring', t_entry_wiring_shared)]
